@@ -34,6 +34,8 @@ echo "confirmed: suite_passes=$S_OK demo_fails_with=$W_FAIL demo_passes_without=
 # run our checks against /repo with the patch applied
 RESULTS=""
 if [ -n "$(git -C /repo status --porcelain)" ]; then echo "/repo not clean, refusing"; exit 4; fi
+touch /tmp/.verif-repo-busy
+trap 'git -C /repo checkout -q -- . ; rm -f /tmp/.verif-repo-busy' EXIT
 git -C /repo apply "$SRC/patch.diff"
 for c in $CHECKS; do
   OUT=$(cd /verif && ./run.sh $c quick 2>&1)
@@ -44,6 +46,7 @@ for c in $CHECKS; do
   RESULTS="$RESULTS{\"check\":\"$c\",\"exit\":$RC,\"sigs\":\"$SIGS\"},"
 done
 git -C /repo checkout -q -- .
+rm -f /tmp/.verif-repo-busy
 [ -z "$(git -C /repo status --porcelain)" ] || echo "WARNING: /repo not clean after revert"
 mkdir -p "$DST"
 cp "$SRC/patch.diff" "$SRC/demo_test.go" "$DST/"; cp "$SRC/README.md" "$DST/" 2>/dev/null
